@@ -159,28 +159,33 @@ func c23IsMsg(fd protoreflect.FieldDescriptor) bool {
 
 // c23Fill sets every field of m to its first sample (first arm of each real oneof), nested
 // messages down to depth.
-func c23Fill(m protoreflect.Message, depth int) {
+func c23Fill(m protoreflect.Message, depth int) { c23FillIdx(m, depth, 0) }
+
+// c23FillIdx: like c23Fill with sample number idx of every scalar (modulo the number of samples) and
+// arm number idx of every real oneof.
+func c23FillIdx(m protoreflect.Message, depth int, idx int) {
 	fields := m.Descriptor().Fields()
 	for i := 0; i < fields.Len(); i++ {
 		fd := fields.Get(i)
-		if oo := fd.ContainingOneof(); oo != nil && !oo.IsSynthetic() && oo.Fields().Get(0) != fd {
+		if oo := fd.ContainingOneof(); oo != nil && !oo.IsSynthetic() && oo.Fields().Get(idx%oo.Fields().Len()) != fd {
 			continue
 		}
 		switch {
 		case fd.IsMap():
 			mp := m.Mutable(fd).Map()
 			ks := c23ScalarSamples(fd.MapKey())
-			mp.Set(ks[0].MapKey(), c23ElemValue(func() protoreflect.Value { return mp.NewValue() }, fd.MapValue(), 0, depth-1))
+			mp.Set(ks[idx%len(ks)].MapKey(), c23ElemValue(func() protoreflect.Value { return mp.NewValue() }, fd.MapValue(), idx, depth-1))
 		case fd.IsList():
 			l := m.Mutable(fd).List()
-			l.Append(c23ElemValue(func() protoreflect.Value { return l.NewElement() }, fd, 0, depth-1))
+			l.Append(c23ElemValue(func() protoreflect.Value { return l.NewElement() }, fd, idx, depth-1))
 		case c23IsMsg(fd):
 			sub := m.Mutable(fd).Message()
 			if depth > 0 {
-				c23Fill(sub, depth-1)
+				c23FillIdx(sub, depth-1, idx)
 			}
 		default:
-			m.Set(fd, c23ScalarSamples(fd)[0])
+			ss := c23ScalarSamples(fd)
+			m.Set(fd, ss[idx%len(ss)])
 		}
 	}
 }
@@ -246,7 +251,8 @@ func c23FieldVariants(fd protoreflect.FieldDescriptor) []c23Variant {
 }
 
 // c23Corpus: for every internalpb message type: all-default, every field alone at each of its
-// samples (this visits every oneof arm), and all fields together two levels deep.
+// samples (this visits every oneof arm), and all fields together (first samples two levels deep,
+// second samples / second oneof arms two levels deep, third samples / third arms three levels deep).
 func c23Corpus() []c23Msg {
 	var out []c23Msg
 	for _, d := range c23Descs() {
@@ -267,6 +273,8 @@ func c23Corpus() []c23Msg {
 			}
 		}
 		add("full", func(m protoreflect.Message) { c23Fill(m, 2) })
+		add("full-alt1", func(m protoreflect.Message) { c23FillIdx(m, 2, 1) })
+		add("full-alt2-deep", func(m protoreflect.Message) { c23FillIdx(m, 3, 2) })
 	}
 	return out
 }
@@ -721,7 +729,7 @@ func c23BaseFrames(corpus []c23Msg, nMsgs int) []c23Frame {
 
 func c23Concat(t *testing.T, corpus []c23Msg, rp *c23ReplayReq) {
 	const scen = "concat"
-	nm := vsched.Pick(2, 4)
+	nm := vsched.Pick(2, 8)
 	e := vsched.NewEnum(scen, map[string]any{
 		"domain": "all sequences of 2 and 3 frames over the base frames (both formats mixed) concatenated on one stream; read back through readProtoFrame (pooled/unpooled, chunk 1/7/all) and through the server read loop",
 	})
